@@ -180,3 +180,19 @@ package sm4
 //@   ensures forall i :: 0 <= i && i < 16 ==> x.iv[i] == old(iv[i])
 //@   ensures sameslice(x.iv, old(x.iv))
 //@   modifies x.iv[0..len(x.iv)]
+
+// ---- CTR counters (C03): the counter block at start is the previous block (the one before it, or the
+// last block of the buffer when start is 0) plus one as a 128-bit big-endian integer, wrapping around:
+// byte k is incremented exactly when every byte behind it was 0xff, so a carry travels through all
+// sixteen bytes; nothing else of the buffer changes
+//@ func (*ctr).genCtr property C03
+//@   requires x != nil && 0 <= start && start % 16 == 0 && start + 16 <= len(x.ctr) && len(x.ctr) % 16 == 0 && 32 <= len(x.ctr)
+//@   let CA := arr(x.ctr)
+//@   let PO := offof(x.ctr) + ite(start >= 16, start - 16, len(x.ctr) - 16)
+//@   ensures forall k :: 0 <= k && k < 16 ==> ((forall m :: k < m && m < 16 ==> CA[PO + m] == 255) ==> x.ctr[start + k] == (CA[PO + k] + 1) % 256)
+//@   ensures forall k :: 0 <= k && k < 16 ==> ((exists m :: k < m && m < 16 && CA[PO + m] != 255) ==> x.ctr[start + k] == CA[PO + k])
+//@   modifies x.ctr[start..start + 16]
+//@   loop 1 invariant -1 <= i && i <= 15 && sameslice(buffer, x.ctr[start:start + 16]) && onlychanged(x.ctr[start:start + 16])
+//@   loop 1 invariant forall m :: i < m && m < 16 ==> buffer[m] == 0 && CA[PO + m] == 255
+//@   loop 1 invariant forall m :: 0 <= m && m <= i ==> buffer[m] == CA[PO + m]
+//@   loop 1 decreases i + 1
